@@ -177,10 +177,18 @@ func (c *StreamConn) credit(n int) {
 	c.mu.Unlock()
 }
 
+// SyscallYield, when set, is called between the writes that a Buffers value
+// is turned into when its writer has no writev of its own: entering a system
+// call is where a goroutine loses its processor.  (Not inside Write itself:
+// crypto/tls and net/http call it with a real mutex held, and a goroutine
+// that sleeps there stops the bubble's clock.)
+var SyscallYield func()
+
 func (c *StreamConn) Write(p []byte) (int, error) {
 	if len(p) == 0 {
 		return 0, nil
 	}
+
 	// flow control: block while the peer's window is full.
 	for {
 		c.mu.Lock()
